@@ -149,4 +149,25 @@ def step (s : ES) : Choice → ES
 
 def run (s : ES) (cs : List Choice) : ES := cs.foldl step s
 
+/-! ### a bulk of tasks through `Popen.work`, without interference
+
+`work(tasks)` announces the start of the whole bulk, then handles the tasks one by one; a launch
+error of one task is caught inside the loop and fails that task only.  Later a watcher pass collects
+the tasks whose process exited. -/
+
+inductive BEv where
+  | start   (uid : Nat)                  -- advance(AGENT_EXECUTING)
+  | unsched (uid : Nat)                  -- publish(AGENT_UNSCHEDULE_PUBSUB)
+  | failed  (uid : Nat)                  -- advance(FAILED)
+  | handed  (uid : Nat) (ok : Bool)      -- advance(AGENT_STAGING_OUTPUT_PENDING), target DONE / FAILED
+deriving DecidableEq, Repr
+
+/-- one bulk: (uid, launch fails, exit code) per task; the events of `work` followed by those of one
+    watcher pass after every launched process exited -/
+def bulkEvents (ts : List (Nat × Bool × Nat)) : List BEv :=
+  ts.map (fun t => BEv.start t.1)
+    ++ (ts.filter (fun t => t.2.1)).flatMap (fun t => [BEv.unsched t.1, BEv.failed t.1])
+    ++ (ts.filter (fun t => !t.2.1)).map (fun t => BEv.unsched t.1)
+    ++ (ts.filter (fun t => !t.2.1)).map (fun t => BEv.handed t.1 (t.2.2 == 0))
+
 end RPVerif.Exec
